@@ -384,6 +384,18 @@ def bob_accepts(path, tree):
     return None
 
 
+# -M keys that collide with the meta keys Bob defines itself ("cannot be redefined", bob-dev(1)): passed by a
+# share of the invocations; the trail must state the ACTUAL names / version regardless
+RESERVED_META = {"recipe": "vf-custom", "package": "vf/elsewhere", "step": "dist", "bob": "0.0.vf", "language": "PowerShell"}
+
+
+def meta_args(meta, collide):
+    m = dict(meta)
+    if collide:
+        m.update(RESERVED_META)
+    return [x for k, v in m.items() for x in ("-M", "%s=%s" % (k, v))]
+
+
 class Auditor:
     """Checks every audit trail of one workspace tree after every invocation (real files).
 
@@ -393,7 +405,8 @@ class Auditor:
         workspaces (args in order, tools by name, sandbox) and holds their records and references;
         a trail that appeared without an execution equals the one stored in the archive / share
     (d) truthfulness: result-hash = hashDirectory(workspace) now, variant-id = live Step id,
-        names, -M variables, metaEnvironment, build-id (checkout: = result hash; else recomputed by
+        names, -M variables (meta keys defined by Bob itself keep the actual values even if -M names them),
+        metaEnvironment, build-id (checkout: = result hash; else recomputed by
         getDigestCoro from the build-ids the trail itself names), SCM records = actual checkout
     (e) artifact-id = own digest of the record; equal ids <=> equal records over the whole run
     """
@@ -501,8 +514,9 @@ class Auditor:
         return None
 
     # -- one invocation -------------------------------------------------------------------------
-    def after(self, cwd, res, live, meta, adir=None, sharedir=None, tmp=None, what=""):
-        """res: bobrun.Result of the invocation; live: output of live_ids(); meta: -M variables."""
+    def after(self, cwd, res, live, meta, adir=None, sharedir=None, tmp=None, what="", collide=False):
+        """res: bobrun.Result of the invocation; live: output of live_ids(); meta: (non-colliding) -M variables;
+        collide: the invocation also passed RESERVED_META."""
         executed = {e["path"] for e in res.events if e["e"] == "runBegin"}
         touched = {e.get("path") for e in res.events if e.get("path")}
         msgtxt = "\n".join(e.get("message", "") for e in res.events if e["e"] == "msg")
@@ -585,6 +599,20 @@ class Auditor:
                 for k, val in meta.items():
                     if a["meta"].get(k) != val:
                         self.v("truthful:meta-variable", step=lab, key=k, recorded=a["meta"].get(k), expected=val, what=what)
+                import bob
+                actual = {"step": [lab], "recipe": [st["recipe"]], "package": sorted(st["pkgs"]),
+                          "bob": [bob.BOB_VERSION], "language": ["bash"]}
+                for k, vals in actual.items():
+                    if k == "bob" and a["meta"].get(k) not in vals + [RESERVED_META[k], None]:
+                        # (the version string is derived from the state of the checkout of Bob: may move during a run)
+                        self.notes.append("meta.bob %r differs from %r" % (a["meta"].get(k), vals))
+                        continue
+                    if a["meta"].get(k) not in vals:
+                        self.v("truthful:meta-reserved-key-overridden" if collide and a["meta"].get(k) == RESERVED_META[k]
+                               else "truthful:meta-reserved-key", step=lab, key=k, recorded=a["meta"].get(k),
+                               actual=vals, what=what)
+                if collide:
+                    self.features.add("colliding-meta-keys")
             elif ws in dl_ok:
                 # extracted from an archive artifact: must be the trail stored in it, verbatim
                 at = self.archive_tree(a["build-id"])
@@ -721,14 +749,15 @@ def replay_bobbuild(hist, work, release, seed):
         for sub, fs in srcs.items():
             bobrun.sync_tree(ws, sub, fs)
         meta = {"VFRUN": "run%d" % n, "vf.key-2": "x y=%d" % rng.randrange(100)}
-        argv = ["build" if release else "dev", "app"] + [x for k, v in meta.items() for x in ("-M", "%s=%s" % (k, v))]
+        collide = rng.random() < 0.5
+        argv = ["build" if release else "dev", "app"] + meta_args(meta, collide)
         r = run_invocation(ws, argv)
         out["invocations"] += 1
         out["shape"].append("OK")
         if r.rc != 0:
             raise RuntimeError("bob invocation failed in BobBuild replay (rc=%s):\n%s" % (r.rc, r.out[-2000:]))
         live = live_ids(ws, "build" if release else "dev", release)
-        aud.after(ws, r, live, meta, tmp=tmp, what="bobbuild:" + ("release" if release else "dev"))
+        aud.after(ws, r, live, meta, tmp=tmp, what="bobbuild:" + ("release" if release else "dev"), collide=collide)
     return aud, out
 
 
@@ -837,7 +866,8 @@ def replay_audittrail(hist, work, seed):
         argv = ["dev", "app", "--sandbox" if b["sbx"] else "--no-sandbox", "--download", b["dl"]]
         if b["up"]:
             argv.append("--upload")
-        argv += [x for k, v in meta.items() for x in ("-M", "%s=%s" % (k, v))]
+        collide = (seed + n) % 2 == 0
+        argv += meta_args(meta, collide)
         r = run_invocation(ws, argv)
         out["invocations"] += 1
         what = "w%d%s%s:dl=%s" % (b["w"], ":sandbox" if b["sbx"] else "", ":upload" if b["up"] else "", b["dl"])
@@ -845,7 +875,7 @@ def replay_audittrail(hist, work, seed):
         if r.rc != 0:
             raise RuntimeError("bob invocation failed in AuditTrail replay %s (rc=%s):\n%s" % (what, r.rc, r.out[-2500:]))
         live = live_ids(ws, "dev", b["sbx"])
-        got = aud.after(ws, r, live, meta, adir=archive, sharedir=share, tmp=tmp, what=what)
+        got = aud.after(ws, r, live, meta, adir=archive, sharedir=share, tmp=tmp, what=what, collide=collide)
         if inv["complete"]:
             for k in ("executed", "downloaded", "shared", "uploaded"):
                 if got[k] != inv[k]:
@@ -923,13 +953,14 @@ def replay_git(ops, work, seed):
             else:
                 _git(srcws, "checkout", "-q", "--", ".")
         meta = {"VFRUN": "g%d" % n}
-        r = run_invocation(ws, ["dev", "app", "--sandbox" if pinned else "--no-sandbox", "-M", "VFRUN=g%d" % n])
+        collide = (seed + n) % 2 == 0
+        r = run_invocation(ws, ["dev", "app", "--sandbox" if pinned else "--no-sandbox"] + meta_args(meta, collide))
         out["invocations"] += 1
         out["shape"].append(op)
         if r.rc != 0:
             raise RuntimeError("bob invocation failed in git replay (rc=%s):\n%s" % (r.rc, r.out[-2000:]))
         live = live_ids(ws, "dev", pinned)
-        aud.after(ws, r, live, meta, tmp=tmp, what=("git-pinned:" if pinned else "git:") + op)
+        aud.after(ws, r, live, meta, tmp=tmp, what=("git-pinned:" if pinned else "git:") + op, collide=collide)
     return aud, out
 
 
@@ -1134,7 +1165,8 @@ def main():
     need = ["feature:tool-trail-merged:build", "feature:sandbox-trail-merged:build", "feature:transitive-merge",
             "feature:downloaded-trail", "feature:uploaded-artifact-checked", "feature:shared-trail",
             "feature:kept-trail-of-skipped-step", "feature:import-scm-digest", "feature:git-scm-clean",
-            "feature:partially-downloaded-build", "feature:metaEnvironment", "feature:reaudited-checkout"]
+            "feature:partially-downloaded-build", "feature:metaEnvironment", "feature:reaudited-checkout",
+            "feature:colliding-meta-keys"]
     missing = [x for x in need if x not in rep.nontrivial]
     if missing and not rep.violations:
         raise RuntimeError("vacuity: audit features never exercised on the real code: %s" % missing)
